@@ -307,6 +307,9 @@ def design_driver(m, i, nshards, tier):
                             sub[:] = mine
                         Xp = np.asarray(dmp.common[text], dtype=float)
                         wantp = np.column_stack([(rows == l).astype(float) for l in sub])
+                        if extra in sub and Xp.shape[1] == len(sub) - 1:
+                            # a listed level that never occurs may get a column of zeros or no column at all
+                            wantp = np.column_stack([(rows == l).astype(float) for l in sub if l != extra])
                         if Xp.shape != wantp.shape or not np.array_equal(Xp, wantp):
                             m.violation("options-honoured", f"0 + {text} with lv={sub} on data with levels {levels}: accepted, and the columns "
                                         "are not the indicators of the listed levels", case=case, key="levels-not-covering-data")
